@@ -12,6 +12,10 @@
        (target of every reference in textual order, or Unknown object) compared with
        Expected(case, Dev) evaluated by TLC (FqnOracle.tla) for Dev = {} and the listed findings.
 (I->S) seeded-random bigger trees (names p q r, <= 14 nodes, up to 5 references).
+Anonymous containers (`grp { .. }`, an object without a name between named ones) are put around
+the children of containers; every third case is loaded with a metamodel whose Pkg is a user class
+with __len__ (packages without a class of their own are falsy in Python).  One provider object
+serves all loads of a run.
 """
 from __future__ import annotations
 
@@ -81,7 +85,9 @@ def positions(t):
     """every referencing position: ('use'|'open', container path), ('ext'|'uses', node path)"""
     out = [("use", ()), ("open", ())]
     for p, n in nodes(t):
-        if n["kind"] == "pkg":
+        if n["kind"] == "grp":
+            out += [("use", p), ("open", p)]
+        elif n["kind"] == "pkg":
             out += [("use", p), ("open", p), ("uses", p)]
         elif n["kind"] == "cls":
             out.append(("ext", p))
@@ -134,64 +140,99 @@ def random_tree(rng, names, maxnodes, depth=4):
     return kids(depth)
 
 
+# ------------------------------------------------------------------ anonymous containers
+def containers(t, path=()):
+    """paths of the containers (() = root, packages, groups) with at least one child"""
+    out = [()] if t else []
+    for p, n in nodes(t):
+        if n["kind"] in ("pkg", "grp") and n.get("kids"):
+            out.append(p)
+    return out
+
+
+def wrap(t, path, pick=None):
+    """a copy of t in which (some of) the children of the container at `path` are moved into a
+    new anonymous group standing where the first of them stood"""
+    t = clone(t)
+    if path == ():
+        lst = t
+    else:
+        lst = at(t, path)["kids"]
+    idx = [i for i in range(len(lst)) if pick is None or pick(i)]
+    if not idx:
+        return t
+    moved = [lst[i] for i in idx]
+    rest = [x for i, x in enumerate(lst) if i not in idx]
+    rest.insert(min(idx[0], len(rest)), dict(kind="grp", kids=moved))
+    lst[:] = rest
+    return t
+
+
 # ------------------------------------------------------------------ the check
-def _judge(rep, real, cases, fids, label):
-    """cases: [{id, tree}] -> load each, ask TLC, compare."""
+def _dev_sets(fids):
+    """the non-empty sets of listed open deviation clauses, smallest first"""
+    names = sorted(fids)
+    out = []
+    for m in range(1, 2 ** len(names)):
+        out.append([n for i, n in enumerate(names) if m >> i & 1])
+    return sorted(out, key=len)
+
+
+def _judge(rep, reals, cases, fids, label):
+    """cases: [{id, tree, uc}] -> load each, ask TLC, compare."""
     from concurrent.futures import ThreadPoolExecutor
+    devs = _dev_sets(fids)
     tcases = []
     for c in cases:
-        objs, refs = D.abstract(c["tree"])
-        tcases.append(dict(id=c["id"], objs=objs, refs=refs))
+        objs, refs = D.abstract(c["tree"], c.get("uc", False))
+        tcases.append(dict(id=c["id"], objs=objs, refs=refs, devs=devs))
     with ThreadPoolExecutor(max_workers=1) as ex:
         fut = ex.submit(tlc.oracle, "FqnOracle", tcases)
-        observed = {c["id"]: real.load(c["tree"]) for c in cases}
+        observed = {c["id"]: reals[bool(c.get("uc"))].load(c["tree"]) for c in cases}
         res, st = fut.result()
     rep.add_oracle(label, st)
     for c, tc in zip(cases, tcases):
         obs, exp = observed[c["id"]], res[c["id"]]
         text = D.text(c["tree"])
-        case = dict(model=text, refs=[[r["owner"], r["attr"], ".".join(r["parts"])] for r in tc["refs"]])
+        case = dict(model=text, user_classes=bool(c.get("uc")),
+                    refs=[[r["owner"], r["attr"], ".".join(r["parts"])] for r in tc["refs"]])
         if obs["error"] and obs["outcome"] == [-1]:
-            rep.violation(dict(case=case, tree=c["tree"], observed=obs), f"loading failed unexpectedly: {obs['error']}")
+            rep.violation(dict(case=case, tree=c["tree"], uc=bool(c.get("uc")), observed=obs),
+                          f"loading failed unexpectedly: {obs['error']}")
             continue
         if [x[:3] for x in obs["calls"]] != case["refs"][:len(obs["calls"])]:
             raise tlc.MachineryError(f"driver: references were not resolved in the rendered order: "
                                      f"{obs['calls']} vs {case['refs']}")
         if not exp["c10"]:
             raise tlc.MachineryError(f"Fqn.tla: documented outcome violates C10 on {text!r}")
-        nontrivial = exp["doc"] != exp["pr"] or (len(exp["doc"]) > 0 and exp["doc"][-1] != 0)
-        dev = {}
-        for devs, key in (("FqnWalksParent",), "p"), (("FqnWalksRefs",), "r"), (("FqnWalksParent", "FqnWalksRefs"), "pr"):
-            if all(d in fids for d in devs):
-                dev["+".join(fids[d] for d in devs)] = exp[key]
-        # total verdict: documented -> pass; a listed deviation set -> known finding; else violation
+        nontrivial = len(exp["doc"]) > 0 and exp["doc"][-1] != 0
+        # total verdict: documented -> pass; a set of listed deviations -> known finding; else violation
         if obs["outcome"] == exp["doc"]:
             rep.passed(case, nontrivial)
             continue
-        hit = next((k for k, v in dev.items() if obs["outcome"] == v), None)
+        hit = next((d for d, v in zip(devs, exp["dev"]) if obs["outcome"] == v), None)
         if hit:
-            ids = hit.split("+")
-            for f in ids:                     # one case, possibly explained by two clauses together
-                rep.known_finding(f, case)
-            rep.evaluations -= len(ids) - 1
-            rep.traces -= len(ids) - 1
+            for d in hit:                     # one case, possibly explained by several clauses together
+                rep.known_finding(fids[d], case)
+            rep.evaluations -= len(hit) - 1
+            rep.traces -= len(hit) - 1
             continue
-        rep.violation(dict(case=case, tree=c["tree"], observed=obs["outcome"], expected=exp["doc"],
-                           with_deviations={k: exp[k] for k in ("p", "r", "pr")}),
-                      f"model {text!r}: references {case['refs']} resolved to {obs['outcome']} (object ids in "
-                      f"textual order, 0 = Unknown object); Fqn.tla prescribes {exp['doc']}; with FqnWalksParent "
-                      f"{exp['p']}, with FqnWalksRefs {exp['r']}, with both {exp['pr']}")
+        rep.violation(dict(case=case, tree=c["tree"], uc=bool(c.get("uc")), observed=obs["outcome"],
+                           expected=exp["doc"], with_deviations=dict(zip(map("+".join, devs), exp["dev"]))),
+                      f"model {text!r}{' (Pkg user class with __len__)' if c.get('uc') else ''}: references "
+                      f"{case['refs']} resolved to {obs['outcome']} (object ids in textual order, 0 = Unknown "
+                      f"object); Fqn.tla prescribes {exp['doc']}")
 
 
 def _cases(rep, rng, quick, witnesses):
     scale = float(os.environ.get("VT_SCALE", "1") or 1)
     if scale != 1:
         rep.note(f"VT_SCALE={scale}: reduced run")
-    cases = [dict(tree=w) for w in witnesses]
+    cases = [dict(tree=w["tree"], uc=w.get("uc", False)) for w in witnesses]
     trees = [t for t in level(3) if size(t) >= 1]
     full_upto = 3 if quick else 5           # these trees: every position x every name, no cross reference
     names3, names2 = dotted(NAMES, 3), dotted(NAMES, 2)
-    n_full = n_cross = 0
+    n_full = n_cross = n_grp = 0
     for t in trees:
         sz = size(t)
         if sz <= full_upto:
@@ -199,11 +240,23 @@ def _cases(rep, rng, quick, witnesses):
                 for nm in names3:
                     cases.append(dict(tree=with_ref(t, pos, nm)))
                     n_full += 1
-    # trees up to 6 (quick) / 8 (thorough) nodes with one or two cross references before the probe
+        # the same with the children of one container moved into an anonymous group
+        if sz <= (2 if quick else 4):
+            for cp in containers(t):
+                w = wrap(t, cp)
+                for pos in positions(w):
+                    for nm in names3:
+                        cases.append(dict(tree=with_ref(w, pos, nm)))
+                        n_grp += 1
+    # trees up to 6 (quick) / 8 (thorough) nodes with one or two cross references before the probe,
+    # a third of them with anonymous groups around some children
     pool = [t for t in trees if 2 <= size(t) <= (6 if quick else 8)]
     want = int((3500 if quick else 40000) * scale)
     for _ in range(want):
         t = rng.choice(pool)
+        if rng.random() < 0.35:
+            for _ in range(rng.choice([1, 1, 2])):
+                t = wrap(t, rng.choice(containers(t)), pick=(lambda i: rng.random() < 0.6))
         ncross = rng.choice([0, 1, 1, 2])
         for _ in range(ncross):
             own = [p for p in positions(t) if p[0] in ("ext", "uses")]
@@ -221,47 +274,56 @@ def _cases(rep, rng, quick, witnesses):
         t = random_tree(rng, names, 14)
         if not t:
             continue
+        if rng.random() < 0.4:
+            for _ in range(rng.choice([1, 2, 3])):
+                t = wrap(t, rng.choice(containers(t)), pick=(lambda i: rng.random() < 0.6))
         for _ in range(rng.randint(1, 5)):
             t = with_ref(t, rng.choice(positions(t)), pick_name(rng, t, big3), front=rng.random() < 0.3)
         cases.append(dict(tree=t))
+    # every third case is loaded with the metamodel whose Pkg is a user class with __len__
+    # (packages without a class of their own are falsy in Python)
     for i, c in enumerate(cases):
         c["id"] = i
+        if "uc" not in c:
+            c["uc"] = i % 3 == 0
     rep.bounds.update(trees_depth3=len(trees), exhaustive_tree_nodes=full_upto, exhaustive_cases=n_full,
-                      sampled_with_cross_refs=n_cross, random_big=nbig)
+                      exhaustive_with_group=n_grp, sampled_with_cross_refs=n_cross, random_big=nbig,
+                      user_class_variant=sum(1 for c in cases if c["uc"]))
     return cases
 
 
 def run(rep):
     quick = rep.tier == "quick"
     rng = random.Random(rep.seed)
-    rep.rule = ("one case = a model text (nested pkg/cls tree, `ext`/`uses` cross references, `use`/`open` probes) "
-                "loaded with {'*.*': FQN()}; observed = target of every reference in textual order or Unknown "
-                "object; compared with Expected(case, Dev) of Fqn.tla. Non-trivial: the last reference resolves "
-                "under the documented semantics, or the documented and the deviating outcome differ; distinct by "
-                "model text.")
+    rep.rule = ("one case = a model text (nested pkg/cls tree, anonymous grp containers, `ext`/`uses` cross "
+                "references, `use`/`open` probes) loaded with {'*.*': FQN()} -- generated classes, or the variant "
+                "whose Pkg is a user class with __len__ -- ; observed = target of every reference in textual order "
+                "or Unknown object; compared with Expected(case, Dev) of Fqn.tla. Non-trivial: the last reference "
+                "resolves under the documented semantics; distinct by model text and variant.")
     rep.assumptions = ["sibling names are unique (the property's premise); object names are strings",
                        "single model, no scope_redirection_logic, no Postponed",
                        "references are resolved in textual order and loading stops at the first Unknown object "
                        "(the driver checks the order against the recorded provider calls)",
-                       "the registered provider is a subclass of FQN that only records call and result"]
+                       "the registered provider is a subclass of FQN that only records call and result; one "
+                       "provider/metamodel serves all loads of a run (models are dropped between loads)"]
     skip_mc = bool(os.environ.get("VT_SKIP_MC"))      # harness debugging only; recorded in the evidence
     if skip_mc:
         rep.note("VT_SKIP_MC set: (M) skipped")
-    for cfg in ([] if skip_mc else ["MC_Fqn.cfg"] if quick else ["MC_Fqn_Thorough.cfg"]):
+    for cfg in ([] if skip_mc else ["MC_Fqn.cfg", "MC_Fqn_Grp.cfg"] if quick else ["MC_Fqn_Thorough.cfg"]):
         r = tlc.model_check("MC_Fqn", cfg=cfg, timeout=3000)
         tlc.require_ok(r, cfg)
         rep.add_mc(cfg[:-4], r, ["C10"])
     if not quick and not skip_mc:
-        for cfg in ("MC_Fqn_P.cfg", "MC_Fqn_R.cfg"):
+        for cfg in ("MC_Fqn_P.cfg", "MC_Fqn_R.cfg", "MC_Fqn_F.cfg"):
             r = tlc.model_check("MC_Fqn", cfg=cfg, timeout=3000)
             if r.violated != "C10":
                 raise tlc.MachineryError(f"{cfg}: expected invariant C10 to be violated, got {r.violated} {r.error}")
             rep.extra.setdefault("deviation_breaks", {})[cfg[:-4]] = "C10"
     findings = common.open_findings(PID)
     fids = {f["deviation"]: f["id"] for f in findings}
-    real = D.Real()
-    cases = _cases(rep, rng, quick, [f["witness"]["tree"] for f in findings])
-    _judge(rep, real, cases, fids, "FqnOracle")
+    reals = {False: D.Real(), True: D.Real(user_classes=True)}
+    cases = _cases(rep, rng, quick, [f["witness"] for f in findings])
+    _judge(rep, reals, cases, fids, "FqnOracle")
     rep.exhaustive = False
     rep.bounds["cases"] = len(cases)
 
@@ -269,16 +331,16 @@ def run(rep):
 def replay(path):
     with open(path) as f:
         rec = json.load(f)
-    tree = rec["case"]["tree"]
+    tree, uc = rec["case"]["tree"], bool(rec["case"].get("uc"))
     common.ensure_repo_on_path()
-    real = D.Real()
-    print(D.text(tree))
+    real = D.Real(user_classes=uc)
+    print(D.text(tree) + ("(Pkg is a user class with __len__)" if uc else ""))
     obs = real.load(tree)
     print("observed:", obs)
-    objs, refs = D.abstract(tree)
-    res, _ = tlc.oracle("FqnOracle", [dict(id=0, objs=objs, refs=refs)])
-    print("Fqn.tla: documented", res[0]["doc"], "FqnWalksParent", res[0]["p"], "FqnWalksRefs", res[0]["r"],
-          "both", res[0]["pr"])
+    objs, refs = D.abstract(tree, uc)
+    devs = _dev_sets({f["deviation"]: f["id"] for f in common.open_findings(PID)})
+    res, _ = tlc.oracle("FqnOracle", [dict(id=0, objs=objs, refs=refs, devs=devs)])
+    print("Fqn.tla: documented", res[0]["doc"], "with listed deviations", dict(zip(map("+".join, devs), res[0]["dev"])))
     return 0 if obs["outcome"] == res[0]["doc"] else 1
 
 
@@ -291,7 +353,8 @@ META = dict(
                 "enumerated and seeded-random models whose real load outcome is compared reference by reference. The "
                 "real provider's walks through `parent` and through resolved references are the named deviation "
                 "clauses FqnWalksParent / FqnWalksRefs; with them the module predicts the real outcome exactly."),
-    level_note=("Trees of depth <= 3 over {p, q}: exhaustive x every position x every name of <= 3 parts only up to "
+    level_note=("Anonymous groups and the falsy-package user-class variant are part of the cases. "
+                "Trees of depth <= 3 over {p, q}: exhaustive x every position x every name of <= 3 parts only up to "
                 "3 (quick) / 5 (thorough) nodes without cross references; larger trees and cross references are "
                 "seeded samples. No scope_redirection_logic, no multi-file models."),
     technique="TLC model checking of Fqn.tla (property as invariant) + TLC-evaluated Expected(case, Dev) vs. real loads",
